@@ -195,7 +195,7 @@ class SBX(Variator):
         return [child1, child2]
 
     def sbx_crossover(self, x1, x2, lb, ub):
-        dx = x2 - x1
+        dx = abs(x2 - x1)
 
         if dx > EPSILON:
             if x2 > x1:
